@@ -17,7 +17,11 @@ Files longer than LIMIT bytes are not run through the model (counted as ogg:skip
 per step (results are cached by content).
 On `fresh` steps additional scenarios exercise layouts the samples do not have: an Opus comment packet with a tail to be
 preserved (built by the model's ogg_set_packet) and a foreign logical stream multiplexed between the pages of the
-sample (built here from raw pages + an independent page writer)."""
+sample (built here from raw pages + an independent page writer), and layouts of other writers (synth_ogg: libogg-style
+paging with the comment packet complete inside a page that ends in the unfinished setup header, comment packets on pages
+of their own ending on / next to a page boundary, OpusTags packets with opaque data or non-zero padding behind the comment
+list, FLAC-in-Ogg with the comment as last metadata block or with blocks behind it).  The same layouts are run once per
+run for every Ogg kind (layout_crosscheck), where the model's independent reader is also compared with the Python walker."""
 import io, re, struct, zlib
 import mutagen
 from common import hx, unhx, zs, zp, coq_bytes, vm_shard
@@ -294,10 +298,19 @@ def run_layout(ctx, kind, f0, d2, what, sizes=(0, 1, 200, 3000, 70000)):
         ctx.disagree("fam.ogg", "%s: layout is not ogg_wf" % what, d2)
         return
     try:
-        W.ogg(f0, codec)
+        wl = W.ogg(f0, codec)
     except W.Bad as e:
         ctx.disagree("fam.ogg", "%s: layout rejected by the independent walker: %s" % (what, str(e)[:60]), d2)
         return
+    # the two independent readers (the model's ogg_load, the Python walker) read the same comment and padding
+    m = re.match(r"ok 1 \| ok (\S+) (\S+) (\S+)$", model_check(ctx, f0, codec))
+    if not m or wl["tags"] is None:
+        ctx.disagree("fam.ogg", "%s: the model's independent reader does not read the layout" % what, d2)
+    else:
+        mine = "%s %s" % (hx(wl["tags"]["vendor"]), enc_comments(wl["tags"]["items"]))
+        if "%s %s" % (m.group(1), m.group(2)) != mine or zp(m.group(3)) != (-1 if wl["padding"] is None else wl["padding"]):
+            ctx.disagree("fam.ogg", "%s: the model's independent reader and the Python walker read different tags/padding" % what,
+                         dict(d2, model=m.group(0)[:200], walker_padding=wl["padding"]))
     try:
         o = kind.cls(io.BytesIO(f0))
     except Exception as e:
@@ -457,7 +470,7 @@ def layout_crosscheck(ctx):
     from .kinds import KINDS as ALL
     import os
     from .kinds import DATA, SAMPLES
-    n = 3 if not ctx.thorough else 12
+    n = 2 if not ctx.thorough else 12
     for kname in sorted(KINDS):
         kind = ALL[kname]
         pth = os.path.join(DATA, SAMPLES[kname][0])
